@@ -51,6 +51,16 @@ func invariants(o *Obs) *Diff {
 				Detail: where + ": the registration with this broker was gone although nothing happened on its connection"}
 		}
 	}
+	// one request answered twice while another of the same connection is not answered at
+	// all: two writers were inside WriteControlAd at once (the stream's frame buffer is shared)
+	for _, r := range o.Reqs {
+		for _, q := range o.Reqs {
+			if len(r.Replies) > 1 && len(q.Replies) == 0 && q.Conn == r.Conn && o.Liveness != "" {
+				return &Diff{Sig: sig("WritesSerialised", "reply_of_one_request_overwritten_by_anothers"),
+					Detail: fmt.Sprintf("%s: request %d.%d has %d replies, request %d.%d on the same connection none", where, r.R, r.K, len(r.Replies), q.R, q.K)}
+			}
+		}
+	}
 	for _, r := range o.Reqs {
 		rq := fmt.Sprintf("%s: request %d.%d (%s)", where, r.R, r.K, r.Target)
 		if len(r.Replies) > 1 {
